@@ -389,8 +389,22 @@ class Gen:
                         yield "c.lease %s %d %s %s %s %d" % (lp, m, dm, lkey, tok, r.choice([100, 5000]))
             elif w < 0.95 + pdestroy:
                 dd = r.choice(dms)
-                yield "c.destroy %s %d %s" % (r.choice(["emb", "cli", "raw"]), m, dd)
+                again = r.random() < 0.5
+                yield "c.destroy %s %d %s%s" % (r.choice(["emb", "cli", "raw"]), m, dd, "" if again else r.choice(["", " fresh"]))
                 yield "wb.keys %s" % dd
+                if again:
+                    # the application goes on writing through its long-lived handle on the owner (no request for
+                    # this DMap reaches that member over the wire), then the DMap is destroyed once more from elsewhere
+                    owners = set()
+                    for _ in range(r.randint(1, 3)):
+                        k3 = hx(r.choice(keys))
+                        rep = yield "c.own %s %s" % (dd, k3)
+                        o3 = int(rep.split("pick=")[1].split("/")[0].split(",")[-1])
+                        owners.add(o3)
+                        yield "c.put emb %d %s %s %s" % (o3, dd, k3, hx(b"again"))
+                    others = [x for x in range(n) if x not in owners] or list(range(n))
+                    yield "c.destroy %s %d %s" % (r.choice(["emb", "cli"]), r.choice(others), dd)
+                    yield "wb.keys %s" % dd
                 yield "c.scanall %s %d %s" % (r.choice(["emb", "cli"]), r.randrange(n), dd)
                 # the DMap stays usable
                 k2 = hx(r.choice(keys))
